@@ -47,7 +47,7 @@ HOST_CHAINS_QUICK = (
     ("com", "evil.com", "fr.evil.com", "lemonde.fr.evil.com"),   # the false ancestor of the property text
     ("uk", "co.uk", "a.co.uk", "www.a.co.uk"),               # multi-label public suffix
     ("ck", "b.ck", "a.b.ck"),                                # wildcard rule *.ck
-    ("ck", "www.ck"),                                        # exception rule !www.ck
+    ("ck", "www.ck", "shop.www.ck"),                         # exception rule !www.ck, and a name under the excepted host
     ("com", "blogspot.com", "x.blogspot.com"),               # private multi-label suffix
     ("com", "evil.com", "localhost.evil.com"),               # host that merely starts like a special host
     ("com", "1.com", "2.1.com", "3.2.1.com", "4.3.2.1.com"),
